@@ -149,7 +149,8 @@ def model_optics(ctx, mo, seed=0):
 
 
 @op('add_tie', mutates=('mo',))
-def add_tie(ctx, mo, idx, new_name=None, bogus=None, name_from=None):
+def add_tie(ctx, mo, idx, new_name=None, bogus=None, name_from=None,
+            repeat=False):
     m = val(ctx, mo)
     names = list(m._parameter_names)
     if not names:
@@ -157,7 +158,8 @@ def add_tie(ctx, mo, idx, new_name=None, bogus=None, name_from=None):
     chosen = []
     for i in idx:
         nm = names[i % len(names)]
-        if nm not in chosen:
+        if repeat or nm not in chosen:
+            # repeat: the user lists a name twice
             chosen.append(nm)
     if bogus:
         chosen.append(bogus)
